@@ -410,6 +410,12 @@ class Engine:
                     return ('const', r)
             if 'WithOverflow' in op:
                 return ('tuple', (('bin', base, a, b), ('ovf', base, a, b)))
+            if base in ('Eq', 'Ne'):
+                # comparison of a boolean with a literal: `x == true` is x, `x == false` is !x
+                for lit, other, oj in ((a, b, rv['a']), (b, a, rv['b'])):   # oj: the literal's operand json
+                    if lit[0] == 'const' and lit[1] in (0, 1) and isinstance(oj, dict) and oj.get('ty') == 'bool':
+                        keep = (lit[1] == 1) == (base == 'Eq')
+                        return other if keep else ('un', 'Not', other)
             return ('bin', base, a, b)
         if 'unop' in rv:
             a = self.eval_operand(st, frame, rv['a'])
